@@ -170,6 +170,10 @@ func (c02Suite) Gen(rng *Rng, tier string, w *bufio.Writer, stats *Stats) {
 		emit("fragment:s2l", fg.limitHopQuery(), 0, 0)
 		stats.Inc("fragment.s2l")
 	}
+	for i := 0; i < nfrag/2; i++ {
+		emit("fragment:s2cw", fg.chainWhereQuery(), 0, 0)
+		stats.Inc("fragment.s2cw")
+	}
 	for _, k := range []string{"", ":NodeKind1", ":NodeKind2", ":NodeKind1:NodeKind2", ":NodeKind2:NodeKind1"} {
 		emit("fragment:count", "match (n"+k+") return count(n)", 0, 0)
 		stats.Inc("fragment.count")
